@@ -6,7 +6,8 @@ import IdspModel.Lemmas.Atan2Xor
 
 `atan2 y x` = `unfoldOct` (three reflections, each to within one LSB) applied to the first-octant value
 `oct0` = `atani (divi (min |y| |x|) (max |y| |x|))`, where `|·|` is the saturating absolute value.
-Combines `divi_spec`, the complete `atani` table and the XOR lemma.  Core Lean only.
+Combines `divi_spec`, the complete `atani` table and the XOR lemma; holds for every `i32` pair and in both build
+modes (since the `fix:` commit clamps the quotient in `divi`).  Core Lean only.
 -/
 namespace Idsp
 
@@ -95,88 +96,91 @@ theorem oct0_neg_x (m : Mode) (y : Int) {x : Int} (h : inI 32 x = true) (h' : in
 theorem oct0_swap (m : Mode) (y x : Int) : oct0 m x y = oct0 m y x := by
   unfold oct0; rw [Int.min_comm, Int.max_comm]
 
-/-- The first-octant computation for sorted non-negative operands other than `(3,3)`: it succeeds, the value
-    is in `[0, atanMax]`; `0` iff the larger operand is `≤ 1`, else `≥ 5215`; `= 5215` on the axis;
-    `≤ 2^29 + 7807` off the diagonal. -/
-theorem oct_ok {a b : Int} (ha : 0 ≤ a) (hab : a ≤ b) (hb : b < 2 ^ 31) (hbad : ¬(a = 3 ∧ b = 3)) :
-    ∃ r, (do let d ← divi .checked a b; atani .checked d) = .ok r ∧ 0 ≤ r ∧ r ≤ atanMax ∧
-      (b ≤ 1 → r = 0) ∧ (2 ≤ b → 5215 ≤ r) ∧ (a < b → r ≤ 536878719) ∧ (a = 0 → 2 ≤ b → r = 5215) := by
-  rcases divi_spec ha hab hb with ⟨h1, hd⟩ | ⟨h2, q, hd, hq0, hqz, hq⟩
-  · refine ⟨0, ?_, by omega, by unfold atanMax; omega, fun _ => rfl, by omega, by omega, by omega⟩
-    rw [hd, R_ok_bind]; exact atani_zero
-  · have hq81 : q ≤ 81920 := by
-      rcases hq with h | ⟨rfl, hodd, h17, rfl⟩
-      · omega
-      · have h5 : 2 ≤ (a - 1) / 2 := by omega
-        have := Int.ediv_le_of_le_mul (a := 2 ^ 15) (b := 2 ^ 14) (c := (a - 1) / 2) (by omega) (by omega)
-        omega
-    obtain ⟨n, rfl⟩ := Int.eq_ofNat_of_zero_le hq0
+/-! ## release build = checked build: no plain operation of `atani` leaves its type when the checked run succeeds -/
+
+theorem arithI_cases (w : Nat) (site : String) (x : Int) :
+    (∀ m, arithI m w site x = .ok x) ∨ arithI .checked w site x = .error ⟨site⟩ := by
+  by_cases h : inI w x = true
+  · left; intro m; exact arithI_ok_of_in h
+  · right; simp [arithI, h]
+
+theorem R_error_bind {α β : Type} (e : Panic) (f : α → R β) : ((Except.error e : R α) >>= f) = .error e := rfl
+
+theorem atanHorner_release (x2 : Int) : ∀ (as : List Int) (r v : Int),
+    atanHorner .checked x2 as r = .ok v → atanHorner .release x2 as r = .ok v := by
+  intro as
+  induction as with
+  | nil => intro r v h; unfold atanHorner at h ⊢; exact h
+  | cons a as ih =>
+    intro r v h
+    unfold atanHorner at h ⊢
+    rcases arithI_cases 64 "atan2.rs:26 r as i64 * x2" (r * x2) with h1 | h1
+    · rw [h1 .checked, R_ok_bind] at h; rw [h1 .release, R_ok_bind]
+      rcases arithI_cases 32 "atan2.rs:26 (..) as i32 + a" (wrapI 32 (shr (r * x2) 32) + a) with h2 | h2
+      · rw [h2 .checked, R_ok_bind] at h; rw [h2 .release, R_ok_bind]; exact ih _ _ h
+      · rw [h2, R_error_bind] at h; cases h
+    · rw [h1, R_error_bind] at h; cases h
+
+/-- whenever checked `atani` returns a value, the release build returns the same value (for every argument) -/
+theorem atani_release {x v : Int} (h : atani .checked x = .ok v) : atani .release x = .ok v := by
+  unfold atani at h ⊢
+  rcases arithI_cases 64 "atan2.rs:22 x * x" (x * x) with h1 | h1
+  · rw [h1 .checked, R_ok_bind] at h; rw [h1 .release, R_ok_bind]
+    dsimp only at h ⊢
+    generalize hh : atanHorner .checked (wrapI 32 (shr (x * x) 32)) atanCoeffs.reverse 0 = H at h
+    cases H with
+    | error e => rw [R_error_bind] at h; cases h
+    | ok r =>
+      rw [R_ok_bind] at h; rw [atanHorner_release _ _ _ _ hh, R_ok_bind]
+      rcases arithI_cases 64 "atan2.rs:27 r as i64 * x" (r * x) with h2 | h2
+      · rw [h2 .checked, R_ok_bind] at h; rw [h2 .release, R_ok_bind]; exact h
+      · rw [h2, R_error_bind] at h; cases h
+  · rw [h1, R_error_bind] at h; cases h
+
+theorem atani_all_modes {x v : Int} (h : atani .checked x = .ok v) (m : Mode) : atani m x = .ok v := by
+  cases m
+  · exact h
+  · exact atani_release h
+
+/-! ## the first octant -/
+
+/-- The first-octant computation for sorted non-negative operands, in either build mode: it succeeds with the
+    same value `r ∈ [0, 2^29 + 2599]`; `0` iff the larger operand is `≤ 1`, else `≥ 5215`; `= 5215` on the axis. -/
+theorem oct_ok {a b : Int} (ha : 0 ≤ a) (hab : a ≤ b) (hb : b < 2 ^ 31) :
+    ∃ r, (∀ m, (do let d ← divi m a b; atani m d) = .ok r) ∧ 0 ≤ r ∧ r ≤ atanMax ∧
+      (b ≤ 1 → r = 0) ∧ (2 ≤ b → 5215 ≤ r) ∧ (a = 0 → 2 ≤ b → r = 5215) := by
+  rcases divi_spec ha hab hb with ⟨h1, hd⟩ | ⟨h2, q, hd, hq0, hq1, hqz⟩
+  · refine ⟨0, fun m => ?_, by omega, by unfold atanMax; omega, fun _ => rfl, by omega, by omega⟩
+    rw [hd m, R_ok_bind]; exact atani_all_modes atani_zero m
+  · obtain ⟨n, rfl⟩ := Int.eq_ofNat_of_zero_le hq0
     obtain ⟨r, hr, r0, r1⟩ := atanQ_ok n (by omega)
     have h0 := atanQ_mono (q := 0) (q' := n) (by omega) (by omega) atanQ_0 hr
-    refine ⟨r, ?_, r0, r1, by omega, fun _ => h0, ?_, ?_⟩
-    · rw [hd, R_ok_bind]; exact hr
-    · intro hlt
-      have hn : n ≤ 65537 := by
-        rcases hq with h | ⟨rfl, _⟩
-        · omega
-        · omega
-      exact atanQ_mono hn (by omega) hr atanQ_65537
+    refine ⟨r, fun m => ?_, r0, r1, by omega, fun _ => h0, ?_⟩
+    · rw [hd m, R_ok_bind]; exact atani_all_modes hr m
     · intro ha0 _
       have : n = 0 := by have := hqz ha0; omega
       subst this
       exact Except.ok.inj (hr.symm.trans atanQ_0)
 
-/-- the exact set of operand pairs on which `atan2` panics (checked) / is wrong (release) -/
-def atan2Bad (y x : Int) : Prop := satAbs y = 3 ∧ satAbs x = 3
-
-theorem atan2Bad_iff {y x : Int} (hy : inI 32 y = true) (hx : inI 32 x = true) :
-    atan2Bad y x ↔ (y = 3 ∨ y = -3) ∧ (x = 3 ∨ x = -3) := by
-  unfold atan2Bad
-  rw [satAbs_of_in hy, satAbs_of_in hx]
-  constructor
-  · intro ⟨h1, h2⟩
-    constructor
-    · split at h1
-      · split at h1 <;> omega
-      · omega
-    · split at h2
-      · split at h2 <;> omega
-      · omega
-  · intro ⟨h1, h2⟩
-    constructor
-    · rcases h1 with rfl | rfl <;> decide
-    · rcases h2 with rfl | rfl <;> decide
-
-theorem oct0_ok {y x : Int} (hy : inI 32 y = true) (hx : inI 32 x = true) (hbad : ¬ atan2Bad y x) :
-    ∃ r0, oct0 .checked y x = .ok r0 ∧ 0 ≤ r0 ∧ r0 ≤ atanMax ∧
+theorem oct0_ok {y x : Int} (hy : inI 32 y = true) (hx : inI 32 x = true) :
+    ∃ r0, (∀ m, oct0 m y x = .ok r0) ∧ 0 ≤ r0 ∧ r0 ≤ atanMax ∧
       (max (satAbs y) (satAbs x) ≤ 1 → r0 = 0) ∧ (2 ≤ max (satAbs y) (satAbs x) → 5215 ≤ r0) ∧
-      (satAbs y ≠ satAbs x → r0 ≤ 536878719) ∧
       (min (satAbs y) (satAbs x) = 0 → 2 ≤ max (satAbs y) (satAbs x) → r0 = 5215) := by
   have ⟨y0, y1⟩ := satAbs_range hy
   have ⟨x0, x1⟩ := satAbs_range hx
-  unfold atan2Bad at hbad
-  have hmin := Int.min_def (satAbs y) (satAbs x)
-  have hmax := Int.max_def (satAbs y) (satAbs x)
-  obtain ⟨r, hr, h0, h1, h2, h3, h4, h5⟩ := oct_ok (a := min (satAbs y) (satAbs x))
-    (b := max (satAbs y) (satAbs x)) (by split at hmin <;> omega)
-    (by split at hmin <;> split at hmax <;> omega) (by split at hmax <;> omega)
-    (by split at hmin <;> split at hmax <;> omega)
-  refine ⟨r, hr, h0, h1, h2, h3, ?_, h5⟩
-  intro hne
-  exact h4 (by split at hmin <;> split at hmax <;> omega)
+  exact oct_ok (a := min (satAbs y) (satAbs x)) (b := max (satAbs y) (satAbs x)) (by omega) (by omega) (by omega)
 
-/-- `atan2` in checked mode on every in-range pair outside the bad set: no panic, and the value is the first
-    octant value `r0` pushed through the three reflections. -/
-theorem atan2_checked {y x : Int} (hy : inI 32 y = true) (hx : inI 32 x = true) (hbad : ¬ atan2Bad y x) :
-    ∃ r0, oct0 .checked y x = .ok r0 ∧ 0 ≤ r0 ∧ r0 ≤ atanMax ∧
+/-- `atan2` on every in-range pair, in either build mode: no panic, and the value is the first octant value `r0`
+    pushed through the three reflections. -/
+theorem atan2_val {y x : Int} (hy : inI 32 y = true) (hx : inI 32 x = true) :
+    ∃ r0, (∀ m, oct0 m y x = .ok r0) ∧ 0 ≤ r0 ∧ r0 ≤ atanMax ∧
       (max (satAbs y) (satAbs x) ≤ 1 → r0 = 0) ∧ (2 ≤ max (satAbs y) (satAbs x) → 5215 ≤ r0) ∧
-      (satAbs y ≠ satAbs x → r0 ≤ 536878719) ∧
       (min (satAbs y) (satAbs x) = 0 → 2 ≤ max (satAbs y) (satAbs x) → r0 = 5215) ∧
-      atan2 .checked y x =
+      ∀ m, atan2 m y x =
         .ok (unfoldOct (decide (y < 0)) (decide (x < 0)) (decide (satAbs x < satAbs y)) r0) := by
-  obtain ⟨r0, hr, h0, h1, h2, h3, h4, h5⟩ := oct0_ok hy hx hbad
-  refine ⟨r0, hr, h0, h1, h2, h3, h4, h5, ?_⟩
-  rw [atan2_eq, hr]
+  obtain ⟨r0, hr, h0, h1, h2, h3, h5⟩ := oct0_ok hy hx
+  refine ⟨r0, hr, h0, h1, h2, h3, h5, fun m => ?_⟩
+  rw [atan2_eq, hr m]
   show Except.ok _ = _
   rw [xor_unfold h0 (by unfold atanMax at h1; omega)]
 
